@@ -347,11 +347,11 @@ to that returned by repr() in Python 2.
 `
 
 func builtin_ascii(self, o py.Object) (py.Object, error) {
-	reprObj, err := py.Repr(o)
+	reprStr, err := py.ReprAsString(o)
 	if err != nil {
 		return nil, err
 	}
-	repr := reprObj.(py.String)
+	repr := py.String(reprStr)
 	out := py.StringEscape(repr, true)
 	return py.String(out), err
 }
@@ -1109,17 +1109,6 @@ func min_max(args py.Tuple, kwargs py.StringDict, name string) (py.Object, error
 			return nil, py.ExceptionNewf(py.TypeError, "'%s' object is not callable", keyFunc.Type())
 		}
 	}
-	if defaultValue != nil {
-		maxItem = defaultValue
-		if keyFunc != nil {
-			maxVal, err = py.Call(kf, py.Tuple{defaultValue}, nil)
-			if err != nil {
-				return nil, err
-			}
-		} else {
-			maxVal = defaultValue
-		}
-	}
 	iter, err := py.Iter(values)
 	if err != nil {
 		return nil, err
@@ -1166,6 +1155,11 @@ func min_max(args py.Tuple, kwargs py.StringDict, name string) (py.Object, error
 	}
 
 	if maxItem == nil {
+		// default is the result for an empty iterable only: it
+		// does not compete with the items
+		if defaultValue != nil {
+			return defaultValue, nil
+		}
 		return nil, py.ExceptionNewf(py.ValueError, "%s() arg is an empty sequence", name)
 	}
 
